@@ -42,10 +42,64 @@ type SCfg struct {
 	StepS int `json:"step_s,omitempty"`
 	// FreshAfterS: headers above S are recent even when c[S] is old (the chain resumed)
 	FreshAfterS bool `json:"fresh_after_s,omitempty"`
+	// HoldAppend: the first Store.Append of exactly the header of this height is held until a "store"
+	// event lets it through or fails it (a stalled write that ends with the caller's deadline)
+	HoldAppend uint64 `json:"hold_append,omitempty"`
 }
 
 func (c SCfg) String() string {
 	return fmt.Sprintf("N%d/S%d/R%d/b%d/hold=%v/age=%ds", c.N, c.S, c.R, c.Batch, c.Hold, c.HeadAgeS)
+}
+
+// holdStore decorates the real store for the Syncer: one chosen Append is held until released.
+type holdStore struct {
+	*store.Store[*vk.H]
+	mu     gosync.Mutex
+	height uint64
+	used   bool
+	held   chan error // non-nil while an Append is parked
+}
+
+var errStoreStalled = errors.New("vk: store write stalled until the deadline")
+
+func (h *holdStore) Append(ctx context.Context, hs ...*vk.H) error {
+	h.mu.Lock()
+	if h.height != 0 && !h.used && len(hs) == 1 && hs[0] != nil && hs[0].Ht == h.height {
+		h.used = true
+		ch := make(chan error, 1)
+		h.held = ch
+		h.mu.Unlock()
+		err := <-ch
+		h.mu.Lock()
+		h.held = nil
+		h.mu.Unlock()
+		if err != nil {
+			return err
+		}
+		return h.Store.Append(ctx, hs...)
+	}
+	h.mu.Unlock()
+	return h.Store.Append(ctx, hs...)
+}
+
+func (h *holdStore) Holding() bool {
+	if h == nil {
+		return false
+	}
+	h.mu.Lock()
+	defer h.mu.Unlock()
+	return h.held != nil
+}
+
+func (h *holdStore) Release(err error) bool {
+	h.mu.Lock()
+	ch := h.held
+	h.mu.Unlock()
+	if ch == nil {
+		return false
+	}
+	ch <- err
+	return true
 }
 
 // Ev is one environment event.
@@ -352,6 +406,7 @@ type SWorld struct {
 	G      *ScriptGetter
 	Sub    *CapSub
 	Sy     *hsync.Syncer[*vk.H]
+	HS     *holdStore // non-nil when cfg.HoldAppend is set
 	Calls  []*spawned
 	Start0 time.Time
 	// model
@@ -461,7 +516,12 @@ func NewSWorld(cfg SCfg) (*SWorld, error) {
 		vk.Settle()
 		_ = st.Sync(ctx)
 	}
-	sy, err := hsync.NewSyncer[*vk.H](w.G, st, w.Sub, syncerOpts(cfg)...)
+	var syStore header.Store[*vk.H] = st
+	if cfg.HoldAppend != 0 {
+		w.HS = &holdStore{Store: st, height: cfg.HoldAppend}
+		syStore = w.HS
+	}
+	sy, err := hsync.NewSyncer[*vk.H](w.G, syStore, w.Sub, syncerOpts(cfg)...)
 	if err != nil {
 		return w, fmt.Errorf("NewSyncer: %w", err)
 	}
@@ -482,6 +542,9 @@ func (w *SWorld) StartSyncer() {
 
 func (w *SWorld) Close() {
 	// release anything held so goroutines can end
+	if w.HS != nil {
+		w.HS.Release(errStoreStalled)
+	}
 	for w.G.AnswerOldest("error", 0) {
 	}
 	if w.Sy != nil && w.StartErr == nil && w.StartPanic == "" {
@@ -601,6 +664,14 @@ func (w *SWorld) Apply(e Ev) bool {
 		}
 	case "advance":
 		time.Sleep(time.Duration(e.D) * time.Second)
+	case "store": // let the held Append through ("ok") or fail it ("fail")
+		var err error
+		if e.A == "fail" {
+			err = errStoreStalled
+		}
+		if w.HS == nil || !w.HS.Release(err) {
+			return false
+		}
 	default:
 		panic("unknown event " + e.K)
 	}
@@ -644,7 +715,7 @@ func (w *SWorld) StateKey() string {
 	head, tail := w.St.VerifPointers()
 	return fmt.Sprintf("stored=%v|head=%d|tail=%d|height=%d|pend=%v|sshead=%d|state=%d,%d,%d,%v|held=%v|calls=%v|t=%d|heads=%v",
 		w.StoredHeights(), head, tail, w.St.Height(), w.Sy.VerifPendingRanges(), w.Sy.VerifSyncStoreHead(),
-		st.FromHeight, st.ToHeight, st.Height, st.Error != "", w.G.HeldStrings(), calls, int(time.Since(w.Start0).Seconds()), w.HeadHeights)
+		st.FromHeight, st.ToHeight, st.Height, st.Error != "", append(w.G.HeldStrings(), fmt.Sprint("store-held=", w.HS.Holding())), calls, int(time.Since(w.Start0).Seconds()), w.HeadHeights)
 }
 
 // runEvents replays a history on a fresh world inside a bubble.
